@@ -105,6 +105,21 @@ def run_files(pid, tier):
         if len(res.samples) < 4:
             res.sample({"modules": [(m["path"], [x["name"] for x in m["defs"]], [b["name"] for b in m["backs"]]) for m in case["input"]["mods"]],
                         "files": sorted(got_files)})
+    # ---- names that differ only by the raw-identifier prefix, repeated extern values (MC_Names): two declarations of one item
+    pn = Pipeline(tier, module="MC_Names", cfgs={"quick": ["MC_Names_q1.cfg"], "thorough": ["MC_Names_q1.cfg"]}, name="files-names")
+    bn = pn.base_coverage()
+    for k in ("states", "transitions", "traces_validated_against_impl"):
+        cov[k] += bn[k]
+    cov["tlc"] = [cov["tlc"], bn["tlc"]]; cov["checker_cmd"] += " ; " + bn["checker_cmd"]
+    for case, obs in pn.pairs():
+        n_checked += 1
+        if pid in case.get("pviol", []):
+            n_model += 1
+        if case["oracle"]["sameItem"] and obs["accepted"]:
+            res.violation("two declarations of one module that denote the same Rust item are accepted (the emitted file defines the item twice, "
+                          "or one declaration silently stands for the other)", payload(case, obs))
+        elif not case["oracle"]["clash"] and not obs["accepted"]:
+            res.add_drift([f"clash-free names rejected: {obs.get('msg')}"], case["id"])
     cov.update({"evaluations": n_checked, "distinct_nontrivial": n_checked, "accepted_by_code": n_acc,
                 "rule": "every module tree x backend-block set x collision of MC_Files written to a real directory and built with "
                         "pyxis::build; output directory listing and top-level items of each file (syn) compared with the declared items",
